@@ -23,7 +23,8 @@ RULE = ("lists of 1..24 contiguous addresses built to trigger chains of merges (
         "non-contiguous wildcard, foreign class, strings. judged = icontract evaluations; distinct non-trivial = (class, "
         "platform, n, #result, merge depth) with at least one merge or removal"
         " Round 4: refusal inputs made of foreign elements only."
-        " Round 5: inputs that were group references before; numbered AddressAg inputs.")
+        " Round 5: inputs that were group references before; numbered AddressAg inputs."
+        " Round 9: lists of 70..95 elements; odd adjacent host pairs.")
 ASSUMPTIONS = ["an IOS AddressAg list whose union is 0.0.0.0/0 raises ValueError: an IOS group cannot hold it (refusal)",
                "the result need not be minimal; the statement demands 'never more elements than the input'"]
 
